@@ -36,9 +36,44 @@ UnwrapFieldOf(M) == CHOOSE f \in Range(M.fields) : f.ann.unwrap
 HasUnwrap(M) == \E f \in Range(M.fields) : f.ann.unwrap
 IsRootUnwrap(M) == Len(M.fields) = 1 /\ M.fields[1].ann.unwrap
 
-\* the rendering of a leaf under the annotations of the field that carries it
+(***************************************************************************)
+(* Structure predicates over a schema (guards of the known findings).      *)
+(***************************************************************************)
+\* messages reachable from the RPC's top-level message (excluding it) that carry codec annotations
+RECURSIVE Reach(_, _, _)
+Reach(s, todo, seen) ==
+  IF todo = {} THEN seen
+  ELSE LET n == CHOOSE x \in todo : TRUE
+           refs == IF HasMsg(s, n) THEN {f.ref : f \in {g \in Range(MsgByName(s, n).fields) : g.kind = "message" /\ HasMsg(s, g.ref)}} ELSE {}
+       IN Reach(s, (todo \cup refs) \ (seen \cup {n}), seen \cup {n})
+Annotated(s, M) ==
+  \/ \E f \in Range(M.fields) : f.ann.int64 = "NUMBER" \/ f.ann.enumEnc = "NUMBER" \/ f.ann.nullable \/ f.ann.empty \in {"NULL", "OMIT"}
+                                   \/ f.ann.ts \in {"UNIX_SECONDS", "UNIX_MILLIS", "DATE"} \/ f.ann.bytes \notin {"", "BASE64"}
+                                   \/ f.ann.flatten \/ f.ann.unwrap
+                                   \/ (f.kind = "enum" /\ HasEnum(s, f.ref) /\ \E v \in Range(EnumByName(s, f.ref).values) : v.custom # "")
+  \/ \E o \in Range(M.oneofs) : o.hasCfg
+  \/ \E f \in Range(M.fields) : f.card = "map" /\ f.kind = "message" /\ HasMsg(s, f.ref) /\ HasUnwrap(MsgByName(s, f.ref))
+NestedAnnotated(s, top) == \E n \in Reach(s, {top}, {}) \ {top} : Annotated(s, MsgByName(s, n))
+\* a message on the way encodes its children with encoding/json instead of the proto3 JSON mapping
+\* (flatten, discriminated oneof): irregular, left unconstrained under its finding
+UsesStdJson(s, M) ==
+  \/ \E f \in Range(M.fields) : f.ann.flatten
+  \/ \E o \in Range(M.oneofs) : o.hasCfg
+\* a map whose value message has an unwrap field (the container encodes its scalar siblings itself)
+UnwrapContainer(s, M) == \E f \in Range(M.fields) : f.card = "map" /\ f.kind = "message" /\ HasMsg(s, f.ref) /\ HasUnwrap(MsgByName(s, f.ref))
+StdJsonOnPath(s, top) == \E n \in Reach(s, {top}, {}) : UsesStdJson(s, MsgByName(s, n))
+\* enum custom values / numeric enum encoding have no effect in the Go codecs
+EnumAnnotated(s, top) ==
+  \E n \in Reach(s, {top}, {}) : \E f \in Range(MsgByName(s, n).fields) :
+     f.kind = "enum" /\ (f.ann.enumEnc = "NUMBER" \/ (HasEnum(s, f.ref) /\ \E v \in Range(EnumByName(s, f.ref).values) : v.custom # ""))
+
+
+\* the rendering of a leaf under the annotations of the field that carries it.  The leaf
+\* annotations are documented for singular and repeated fields of the annotated kind; on a map
+\* field they have no documented meaning and no effect.
 Leaf(f, x) ==
-  CASE f.ann.int64 = "NUMBER" /\ f.kind \in {"int64", "uint64", "sint64", "fixed64", "sfixed64"} -> x.num
+  CASE f.card = "map" -> (IF f.kind = "enum" THEN x.custom ELSE x.std)
+    [] f.ann.int64 = "NUMBER" /\ f.kind \in {"int64", "uint64", "sint64", "fixed64", "sfixed64"} -> x.num
     [] f.kind = "enum" /\ f.ann.enumEnc = "NUMBER" -> x.num
     [] f.kind = "enum" -> x.custom                      \* = std when the value has no custom name
     [] f.ann.ts = "UNIX_SECONDS" -> x.unixs [] f.ann.ts = "UNIX_MILLIS" -> x.unixms [] f.ann.ts = "DATE" -> x.date
@@ -51,28 +86,28 @@ Leaf(f, x) ==
 \* The contract is Enc(s, x) = EncMsgVal(s, x, TRUE, TRUE): h stays TRUE for nested messages.
 \* nh = the mode nested messages are encoded in (FALSE models D_nested_codec_ignored).
 RECURSIVE EncVal(_, _, _, _, _), Members(_, _, _, _, _), EncMsgVal(_, _, _, _)
-
-EncMsgVal(s, x, h, nh) ==
+\* md = [nh, nn]: nh = the mode nested messages are encoded in (FALSE models D_nested_codec_ignored);
+\* nn = TRUE models D_unwrap_empty_as_null (an empty unwrapped list is written as null).
+EncMsgVal(s, x, h, md) ==
   IF ~HasMsg(s, x.type) THEN x.std                      \* well-known / foreign types: protojson's rendering
   ELSE LET M == MsgByName(s, x.type) IN
-       IF h /\ IsRootUnwrap(M) THEN EncVal(s, M.fields[1], x.fs[1].v, h, nh)
-       ELSE JObj(Members(s, M, x, h, nh))
+       IF h /\ IsRootUnwrap(M) THEN EncVal(s, M.fields[1], x.fs[1].v, h, md)
+       ELSE JObj(Members(s, M, x, h, md))
 
-EncVal(s, f, x, h, nh) ==
+EncVal(s, f, x, h, md) ==
   CASE x.t = "s"  -> IF h THEN Leaf(f, x) ELSE x.std
-    [] x.t = "l"  -> JArr([i \in DOMAIN x.es |-> EncVal(s, f, x.es[i], h, nh)])
+    [] x.t = "l"  -> JArr([i \in DOMAIN x.es |-> EncVal(s, f, x.es[i], h, md)])
     [] x.t = "mp" -> JObj({<<x.es[i].k,
                              \* map-value unwrap: a value message with an unwrap field collapses to that field's array
                              IF h /\ x.es[i].v.t = "m" /\ HasMsg(s, x.es[i].v.type) /\ HasUnwrap(MsgByName(s, x.es[i].v.type))
-                                /\ ~IsRootUnwrap(MsgByName(s, x.es[i].v.type))
                              THEN LET VM == MsgByName(s, x.es[i].v.type)
                                       uf == UnwrapFieldOf(VM)
                                       uv == (CHOOSE p \in Range(x.es[i].v.fs) : p.name = uf.name).v
-                                  IN EncVal(s, uf, uv, nh, nh)
-                             ELSE EncVal(s, f, x.es[i].v, h, nh)>> : i \in DOMAIN x.es})
-    [] x.t = "m"  -> EncMsgVal(s, x, nh, nh)           \* a nested message: its own mapping, in mode nh
+                                  IN IF md.nn /\ uv.t = "l" /\ uv.es = <<>> THEN JNull ELSE EncVal(s, uf, uv, md.nh, md)
+                             ELSE EncVal(s, f, x.es[i].v, h, md)>> : i \in DOMAIN x.es})
+    [] x.t = "m"  -> EncMsgVal(s, x, md.nh, md)        \* a nested message: its own mapping, in mode nh
 
-Members(s, M, x, h, nh) ==
+Members(s, M, x, h, md) ==
   UNION {
     LET f  == FieldOf(M, p.name)
         v  == p.v
@@ -82,22 +117,23 @@ Members(s, M, x, h, nh) ==
                         dv == [t |-> "str", v |-> IF f.ann.oneofValue # "" THEN f.ann.oneofValue ELSE f.name]
                     IN {<<o.discriminator, dv>>}
                        \cup (IF o.flatten /\ v.t = "m" /\ HasMsg(s, v.type)
-                             THEN Members(s, MsgByName(s, v.type), v, nh, nh)
-                             ELSE {<<f.json, EncVal(s, f, v, h, nh)>>})
+                             THEN Members(s, MsgByName(s, v.type), v, md.nh, md)
+                             ELSE {<<f.json, EncVal(s, f, v, h, md)>>})
           [] h /\ f.ann.flatten /\ f.kind = "message" ->
                IF ~p.has \/ ~HasMsg(s, v.type) THEN {}
-               ELSE {<<f.ann.prefix \o kv[1], kv[2]>> : kv \in Members(s, MsgByName(s, v.type), v, nh, nh)}
-          [] h /\ f.ann.nullable -> IF p.has THEN {<<f.json, EncVal(s, f, v, h, nh)>>} ELSE {<<f.json, JNull>>}
+               ELSE {<<f.ann.prefix \o kv[1], kv[2]>> : kv \in Members(s, MsgByName(s, v.type), v, md.nh, md)}
+          [] h /\ f.ann.nullable -> IF p.has THEN {<<f.json, EncVal(s, f, v, h, md)>>} ELSE {<<f.json, JNull>>}
           [] h /\ f.ann.empty \in {"NULL", "OMIT"} /\ p.has /\ v.t = "m" /\ v.empty ->
                IF f.ann.empty = "NULL" THEN {<<f.json, JNull>>} ELSE {}
-          [] OTHER -> IF p.has THEN {<<f.json, EncVal(s, f, v, h, nh)>>} ELSE {}
+          [] OTHER -> IF p.has THEN {<<f.json, EncVal(s, f, v, h, md)>>} ELSE {}
     : p \in Range(x.fs) }
 
+Contract == [nh |-> TRUE, nn |-> FALSE]
 \* the JSON form of a top-level message value (the contract)
-Enc(s, x) == EncMsgVal(s, x, TRUE, TRUE)
-\* what the code does today for nested messages (D_nested_codec_ignored): the top-level message's
-\* own annotations apply, every nested message is plain proto3 JSON
-EncPlainNested(s, x) == EncMsgVal(s, x, TRUE, FALSE)
+Enc(s, x) == EncMsgVal(s, x, TRUE, Contract)
+\* the variants the code produces today (each tied to a known finding)
+EncVariant(s, x, nestedPlain, nilNull) == EncMsgVal(s, x, TRUE, [nh |-> ~nestedPlain, nn |-> nilNull])
+EncPlainNested(s, x) == EncVariant(s, x, TRUE, FALSE)
 
 (***************************************************************************)
 (* Round trip (C04): decoding what was encoded yields the value up to the  *)
